@@ -1,11 +1,12 @@
 #!/bin/sh
 # run every claimed check once (quick tier by default) and summarise
 tier=${1:-quick}
-cd /verif
+cd "$(dirname "$0")" || exit 2
+out=${RUNALL_OUT:-/tmp}
 for p in C01 C02 C03 C04 C05 C06 C07 C08 C09 C10 C11 C12 C13 C14 C15 C16 C17 C18 C19 C20; do
   s=$(date +%s)
-  timeout 3000 ./check $p --tier $tier > /tmp/runall_$p.out 2>&1
+  timeout 3000 ./check $p --tier $tier > $out/runall_$p.out 2>&1
   rc=$?
   e=$(( $(date +%s) - s ))
-  echo "$p rc=$rc ${e}s $(grep -c '^VIOLATION' /tmp/runall_$p.out) violations $(grep -c '^KNOWN-FINDING' /tmp/runall_$p.out) known $(grep -c MACHINERY /tmp/runall_$p.out) machinery"
+  echo "$p rc=$rc ${e}s $(grep -c '^VIOLATION' $out/runall_$p.out) violations $(grep -c '^KNOWN-FINDING' $out/runall_$p.out) known $(grep -c MACHINERY $out/runall_$p.out) machinery"
 done
